@@ -266,6 +266,7 @@ func vtEqual(a, b *SignedTransaction) bool {
 // vtDecode runs the real decoder on in and records the observations of one "Dec" event.
 func vtDecode(in []byte, orig *VersionedTransaction) vM {
 	ev := vM{"in_len": len(in), "enc": "-", "enc_len": 0, "reenc_eq": false, "rt_eq": false,
+		"hash_reuse_eq": false, "hash_moves_after_edit": false,
 		"nin": 0, "nout": 0, "nref": 0, "extra_n": 0, "sigkind": "-", "signers": []int{}}
 	var dec *VersionedTransaction
 	res, _ := vCall(func() error {
@@ -294,6 +295,34 @@ func vtDecode(in []byte, orig *VersionedTransaction) vM {
 		ev["enc_len"] = len(enc)
 		ev["reenc_eq"] = bytes.Equal(in, enc)
 	}
+	// the hash is a function of the payload fields of the value, not of the buffer it was decoded
+	// from and not of anything remembered from decoding:
+	//  (a) decode from a scratch buffer, overwrite the buffer, hash: same hash as a value decoded
+	//      from an intact copy;
+	//  (b) decode, change one payload field (one more byte of extra), hash: another hash.
+	vCall(func() error {
+		fresh, err := UnmarshalVersionedTransaction(append([]byte{}, in...))
+		if err != nil {
+			return err
+		}
+		hFresh := fresh.PayloadHash()
+		scratch := append([]byte{}, in...)
+		reused, err := UnmarshalVersionedTransaction(scratch)
+		if err != nil {
+			return err
+		}
+		for i := range scratch {
+			scratch[i] = 0xAA
+		}
+		ev["hash_reuse_eq"] = reused.PayloadHash() == hFresh
+		edited, err := UnmarshalVersionedTransaction(append([]byte{}, in...))
+		if err != nil {
+			return err
+		}
+		edited.Extra = append(append([]byte{}, edited.Extra...), 0x5a)
+		ev["hash_moves_after_edit"] = edited.PayloadHash() != hFresh
+		return nil
+	})
 	return ev
 }
 
